@@ -368,6 +368,10 @@ pub fn run_case(case: &Case, st: &mut Stats) -> CaseResult {
     ff_part::<{ primes::U128_LARGE_2 }>(&reps, n, &wsel)?;
     ff_part::<{ primes::U128_LARGE_3 }>(&reps, n, &wsel)?;
     ff_part::<{ primes::U128_LARGE_4 }>(&reps, n, &wsel)?;
+    // the finite-field semiring is generic in its modulus: two primes that are not among the exported constants,
+    // above the 96-bit ones (products need up to 254 bits)
+    ff_part::<{ (1u128 << 107) - 1 }>(&reps, n, &wsel)?;
+    ff_part::<{ (1u128 << 127) - 1 }>(&reps, n, &wsel)?;
 
     // --- Boolean semiring with indicator weights = evaluate; plus unsmoothed with arbitrary booleans
     let bops = Ops::<bool> { zero: false, one: true, add: &|a, b| *a || *b, mul: &|a, b| *a && *b };
@@ -600,7 +604,7 @@ pub struct Counts;
 impl SubCheckT for Counts {
     type Case = Case;
     const NAME: &'static str = "counts";
-    const RULE: &'static str = "a function (random truth table over <=6 variables with a random support mask, or a random CNF over <=7) represented as BDDs under 3 random orders (regular and negated pointers), SDDs under 2 random vtrees (second one uncompressed when n<=4; regular and negated) and, for CNFs, both top-down stores; weight tables built in four ways (set_weight ascending / descending / WmcParams::new / placeholders overwritten in a scrambled order), weights whose low+high is the semiring's one: real dyadics k/8, all 7 exported finite fields (boundary + random residues), expected utility (p,u)/(1-p,-u), complex, degree-2 integer polynomials, rational indicators: every count = exact brute-force sum over models; evaluate() = truth-table bit on all 2^n assignments; arbitrary non-normalised weights on the canonical BDDs = the Shannon sum over the variables each sub-function depends on (order-aware), for all seven semirings. Non-trivial: non-constant function with >=3 support variables";
+    const RULE: &'static str = "a function (random truth table over <=6 variables with a random support mask, or a random CNF over <=7) represented as BDDs under 3 random orders (regular and negated pointers), SDDs under 2 random vtrees (second one uncompressed when n<=4; regular and negated) and, for CNFs, both top-down stores; weight tables built in four ways (set_weight ascending / descending / WmcParams::new / placeholders overwritten in a scrambled order), weights whose low+high is the semiring's one: real dyadics k/8, all 7 exported finite fields plus GF(2^107-1) and GF(2^127-1) (boundary + random residues), expected utility (p,u)/(1-p,-u), complex, degree-2 integer polynomials, rational indicators: every count = exact brute-force sum over models; evaluate() = truth-table bit on all 2^n assignments; arbitrary non-normalised weights on the canonical BDDs = the Shannon sum over the variables each sub-function depends on (order-aware), for all seven semirings. Non-trivial: non-constant function with >=3 support variables";
     fn cases(tier: Tier) -> u32 {
         tier.pick(5000, 60_000)
     }
